@@ -317,8 +317,10 @@ ctr_three!(ctr32be_b4_w2_p4_0_9, 48, Ctr32BE, spec::CTR32BE, u32, U4, 4, U2, 4, 
 ctr_three!(ctr32le_b4_w2_p1_12_2, 48, Ctr32LE, spec::CTR32LE, u32, U4, 4, U2, 1, 12, 2); // 3 buffered + 2 whole blocks + 1
 ctr_three!(ctr64be_b8_w2_p7_2_19, 64, Ctr64BE, spec::CTR64BE, u64, U8, 8, U2, 7, 2, 19); // 7 buffered... then 2 whole blocks + tail
 ctr_three!(ctr64le_b8_w2_p8_8_1, 64, Ctr64LE, spec::CTR64LE, u64, U8, 8, U2, 8, 8, 1);
-ctr_three!(ctr128be_b16_w1_p5_16_12, 80, Ctr128BE, spec::CTR128BE, u128, U16, 16, U1, 5, 16, 12);
-ctr_three!(ctr128le_b16_w1_p15_2_17, 80, Ctr128LE, spec::CTR128LE, u128, U16, 16, U1, 15, 2, 17);
+ctr_three!(ctr128be_b16_w2_p1_47_1, 100, Ctr128BE, spec::CTR128BE, u128, U16, 16, U2, 1, 47, 1); // 15 buffered + parallel group of 2
+ctr_three!(t_ctr128be_b16_w1_p5_16_12, 80, Ctr128BE, spec::CTR128BE, u128, U16, 16, U1, 5, 16, 12);
+ctr_three!(ctr128le_b16_w2_p0_33_2, 100, Ctr128LE, spec::CTR128LE, u128, U16, 16, U2, 0, 33, 2); // parallel group from a block boundary
+ctr_three!(t_ctr128le_b16_w1_p15_2_17, 80, Ctr128LE, spec::CTR128LE, u128, U16, 16, U1, 15, 2, 17);
 belt_three!(belt_w2_p3_50_1, 100, U2, 3, 50, 1); // middle piece: 13 buffered bytes + 2 whole blocks (parallel group) + 5
 belt_three!(t_belt_w1_p3_13_17, 80, U1, 3, 13, 17);
 buf_step!(buf_enc_step_b2_a0_n5, 48, BufEncryptor, encrypt, true, U2, 2, 0, 5);
